@@ -6,7 +6,7 @@ CONSTANTS
     Everys = {0, 1, 2, 3, 4, 5}
     Aligns = {FALSE, TRUE}
     Fills = {FALSE, TRUE}
-    MaxTime = 6
+    MaxTime = 5
     MaxPoints = 5
 INVARIANTS
     TypeOK
